@@ -783,8 +783,8 @@ func cmdCheck(args []string) int {
 	}
 	solveAll(solveList, *workers, budget, false)
 	// An undecided obligation may be a casualty of machine load (a dozen workers racing three
-	// solvers each): the undecided ones are tried once more, two at a time, with three times the
-	// quick budget (the thorough budget is kept).
+	// solvers each): the undecided ones are tried once more, two at a time, with the same
+	// budget for the solver race and three times the wall-clock limits of the cheap first attempts.
 	// A refuted obligation (sat) is never retried.
 	var retry []*Obligation
 	for _, o := range solveList {
@@ -797,10 +797,7 @@ func cmdCheck(args []string) int {
 			o.Result = nil
 		}
 		rb := budget
-		if *tier != "thorough" {
-			rb = 3 * budget
-		}
-		stageScale = 4
+		stageScale = 3
 		solveAll(retry, 2, rb, false)
 		stageScale = 1
 	}
